@@ -44,6 +44,178 @@ def calibrate(rep):
     return len(recs), st
 
 
+WIDTH = 120   # the width goml asks its Go printer to fill everywhere (CLI PRETTY_WIDTH, wasm-app, the tests, gv compile)
+
+
+def _name(stem, n):
+    """an identifier of exactly n characters (n >= len(stem) + 2)"""
+    filler = "_quantity_measured_along_the_whole_length_of_the_consignment_and_recorded_by_the_clerk_on_duty_for_the_quarterly_report"
+    s = stem + (filler * (n // len(filler) + 1))
+    s = s[:n]
+    return s[:-1] + "x" if s.endswith("_") else s
+
+
+def _prose(n, k=0):
+    """a string literal body of exactly n characters (letters, digits, spaces and punctuation that needs no escape)"""
+    words = ["welcome", "to", "the", "quarterly", "inventory", "reconciliation", "report", "generator,", "version", "2", "(preview", "build)", "===",
+             "prepared", "for:", "every", "warehouse", "north", "of", "the", "river;", "totals", "are", "in", "grams", "-", "not", "ounces."]
+    s = ""
+    i = k
+    while len(s) < n:
+        s += words[i % len(words)] + " "
+        i += 1
+    s = s[:n]
+    return s[:-1] + "." if s.endswith(" ") else s
+
+
+# operand classes of the operators goml has (ast BinaryOp / goast GoBinaryOp: + - * / < > <= >= == != && ||, and the prefix - !):
+# (goml type, two run-time values, the operators applicable at the type)
+_WIDE_CLASSES = {
+    "int32": ("84", "12", ["+", "-", "*", "/", "<", "<=", ">", ">=", "==", "!="]),
+    "int64": ("9223372036854775806i64", "4611686018427387903i64", ["+", "-", "*", "/", "<", "<=", ">", ">=", "==", "!="]),
+    "uint8": ("200u8", "7u8", ["+", "-", "*", "/", "<", "<=", ">", ">=", "==", "!="]),
+    "float64": ("7.5", "2.5", ["+", "-", "*", "/", "<", "<=", ">", ">=", "==", "!="]),
+    "float32": ("7.5f32", "2.5f32", ["+", "-", "*", "/", "<", "<=", ">", ">=", "==", "!="]),
+    "bool": ("true", "false", ["&&", "||", "==", "!="]),
+    "string": ('"left"', '"right"', ["+", "==", "!="]),
+}
+_OPNAME = {"+": "add", "-": "sub", "*": "mul", "/": "div", "<": "lt", "<=": "le", ">": "gt", ">=": "ge", "==": "eq", "!=": "ne", "&&": "and", "||": "or"}
+
+
+def _wide_operator_program(ty, op, L):
+    """One program per (operand type, operator, length): the operation occurs with operands that make the emitted Go statement
+    wider than the printer's width, at every position an operation can be emitted at (function result, let initialiser, call
+    argument, condition of if / while, match scrutinee), the width coming from long names (both operands), from a long binder,
+    and (strings, numbers) from long literals on the left, on the right and on both sides."""
+    v1, v2, _ = _WIDE_CLASSES[ty]
+    res = ty if op in "+-*/" else "bool"
+    show = (lambda e: f"string_println({e})") if res == "string" else (lambda e: f"string_println({res}_to_string({e}))")
+    pa, pb = _name("first_operand", L), _name("second_operand", L)
+    la, lb = _name("left_local", L), _name("right_local", L)
+    binder = _name("result_kept", 2 * L)
+    lines = [f"fn tail_of_two_parameters({pa}: {ty}, {pb}: {ty}) -> {res} {{\n    {pa} {op} {pb}\n}}\n"]
+    body = [f"let {la}: {ty} = {v1};", f"let {lb}: {ty} = {v2};",
+            f"let {binder} = {la} {op} {lb};", f"let _ = {show(binder)};",
+            f"let _ = {show(f'{la} {op} {lb}')};",
+            f"let _ = {show(f'tail_of_two_parameters({v1}, {v2})')};"]
+    # a long binder with short operands
+    body += [f"let {binder}_b = {la} {op} {v2};", f"let _ = {show(binder + '_b')};"]
+    if res == "bool":
+        body += [f'let _ = string_println(if {la} {op} {lb} {{ "yes" }} else {{ "no" }});',
+                 f'let _ = string_println(match {la} {op} {lb} {{ true => "yes", false => "no" }});',
+                 f'let _ = (while {la} {op} {lb} && {la} {op} {lb} && false {{ () }});' if ty != "bool" else
+                 f'let _ = (while ({la} {op} {lb}) && false {{ () }});']
+    if ty == "string":
+        ta, tb = _prose(L + 20, 0), _prose(L + 20, 5)
+        body += [f'let _ = {show(f"{chr(34)}{ta}{chr(34)} {op} {la}")};', f'let _ = {show(f"{la} {op} {chr(34)}{tb}{chr(34)}")};',
+                 f'let _ = {show(f"{chr(34)}{ta}{chr(34)} {op} {chr(34)}{tb}{chr(34)}")};',
+                 f'let literal_on_the_left = "{ta}" {op} {la};', f'let literal_on_the_right = {la} {op} "{tb}";',
+                 f"let _ = {show('literal_on_the_left')};", f"let _ = {show('literal_on_the_right')};"]
+    elif ty != "bool":
+        # number literals are at most ~20 characters: they widen the statement together with a long operand
+        body += [f"let _ = {show(f'{v1} {op} {lb}')};", f"let _ = {show(f'{la} {op} {v2}')};"]
+    lines.append("fn main() -> unit {\n" + "".join("    " + b + "\n" for b in body) + "    ()\n}\n")
+    return "".join(lines)
+
+
+def _wide_construct_programs(L):
+    """The other statement forms of the emitted Go, each made wider than the printer's width by long names and long literals."""
+    a, b, c = _name("alpha", L), _name("beta", L), _name("gamma", L)
+    ta, tb, tc = _prose(L, 0), _prose(L, 3), _prose(L, 7)
+    fa, fb = _name("field_one", L), _name("field_two", L)
+    out = {}
+    out["call-arguments"] = (
+        f"fn join3({a}: string, {b}: string, {c}: string) -> string {{ {a} + {b} + {c} }}\n"
+        f'fn main() -> unit {{\n    let {a} = "x";\n    let {b} = "y";\n    let {c} = "z";\n'
+        f"    let _ = string_println(join3({a}, {b}, {c}));\n"
+        f'    let _ = string_println(join3("{ta}", "{tb}", "{tc}"));\n    ()\n}}\n')
+    out["signature"] = (
+        f"fn {_name('compute', L)}({a}: int32, {b}: int32, {c}: int32) -> int32 {{ {a} }}\n"
+        f"fn main() -> unit {{\n    let _ = string_println(int32_to_string({_name('compute', L)}(1, 2, 3)));\n    ()\n}}\n")
+    out["print-literal"] = f'fn main() -> unit {{\n    let _ = string_println("{_prose(3 * L)}");\n    let _ = string_print("{_prose(3 * L, 4)}");\n    ()\n}}\n'
+    out["struct-literal-and-fields"] = (
+        f"struct Record {{ {fa}: string, {fb}: int32 }}\n"
+        f"fn first(r: Record) -> string {{ r.{fa} }}\n"
+        f"fn main() -> unit {{\n    let {a} = Record {{ {fa}: \"{ta}\", {fb}: 2147483647 }};\n"
+        f"    let _ = string_println({a}.{fa} + int32_to_string({a}.{fb}));\n"
+        f"    let Record {{ {fa}: {b}, {fb}: {c} }} = {a};\n    let _ = string_println({b} + int32_to_string({c}));\n"
+        f"    let _ = string_println(first({a}));\n    ()\n}}\n")
+    out["tuple"] = (
+        f'fn main() -> unit {{\n    let {a} = "{ta}";\n    let {b} = 5;\n    let {c} = true;\n    let whole = ({a}, {b}, {c}, "{tb}");\n'
+        f"    let ({a}_1, {b}_1, {c}_1, rest) = whole;\n"
+        f"    let _ = string_println({a}_1 + int32_to_string({b}_1) + bool_to_string({c}_1) + rest);\n    ()\n}}\n")
+    va, vb = "V" + _name("ariant_one", L - 1), "V" + _name("ariant_two", L - 1)
+    out["enum-constructor-and-match"] = (
+        f"enum Shape {{ {va}(string, string), {vb}(int32), Plain }}\n"
+        f"fn describe(s: Shape) -> string {{\n    match s {{\n        {va}({a}, {b}) => {a} + {b},\n        {vb}({c}) => int32_to_string({c}),\n        Plain => \"plain\",\n    }}\n}}\n"
+        f'fn main() -> unit {{\n    let _ = string_println(describe({va}("{ta}", "{tb}")));\n    let _ = string_println(describe({vb}(7)));\n'
+        f"    let _ = string_println(describe(Plain));\n    ()\n}}\n")
+    pa, pb = _prose(2 * L + 10, 0), _prose(2 * L + 10, 3)
+    out["string-patterns"] = (
+        f'fn classify(s: string) -> string {{\n    match s {{\n        "{pa}" => "first",\n        "{pb}" => "second",\n        _ => "other",\n    }}\n}}\n'
+        f'fn main() -> unit {{\n    let _ = string_println(classify("{pa}"));\n    let _ = string_println(classify("{pb}"));\n    let _ = string_println(classify("x"));\n    ()\n}}\n')
+    out["closure"] = (
+        f"fn main() -> unit {{\n    let {c} = 10;\n    let combine = |{a}: int32, {b}: int32| {a} * {b} + {c};\n"
+        f"    let _ = string_println(int32_to_string(combine(3, 4)));\n    ()\n}}\n")
+    out["array-literal"] = (
+        f"fn main() -> unit {{\n    let {a} = 1;\n    let {b} = 2;\n    let {c} = 3;\n    let all = [{a}, {b}, {c}];\n"
+        f"    let _ = string_println(int32_to_string(array_get(all, 1)));\n"
+        f'    let texts = ["{ta}", "{tb}"];\n    let _ = string_println(array_get(texts, 0));\n    ()\n}}\n')
+    m = _name("render", L)
+    out["trait-method-and-dyn"] = (
+        f"struct Point {{ {fa}: int32 }}\ntrait Show {{\n    fn {m}(Self, string, string) -> string;\n}}\n"
+        f"impl Show for Point {{\n    fn {m}(self: Point, {a}: string, {b}: string) -> string {{ {a} + int32_to_string(self.{fa}) + {b} }}\n}}\n"
+        f'fn through(d: dyn Show) -> string {{ Show::{m}(d, "{ta}", "{tb}") }}\n'
+        f'fn main() -> unit {{\n    let p = Point {{ {fa}: 3 }};\n    let _ = string_println(Show::{m}(p, "{ta}", "{tb}"));\n'
+        f"    let d: dyn Show = Point {{ {fa}: 4 }};\n    let _ = string_println(through(d));\n    ()\n}}\n")
+    g = "G" + _name("eneric_box", L - 1)
+    out["generic-instances"] = (
+        f"struct {g}[T] {{ {fa}: T }}\nfn unbox[T](x: {g}[T]) -> T {{ x.{fa} }}\n"
+        f'fn main() -> unit {{\n    let _ = string_println(unbox({g} {{ {fa}: "{ta}" }}));\n'
+        f"    let _ = string_println(int32_to_string(unbox({g} {{ {fa}: 5 }})));\n"
+        f"    let _ = string_println(int32_to_string(unbox(unbox({g} {{ {fa}: {g} {{ {fa}: 6 }} }}))));\n    ()\n}}\n")
+    out["references"] = (
+        f'fn main() -> unit {{\n    let {a} = ref("{ta}");\n    let _ = ref_set({a}, ref_get({a}) + "{tb}");\n    let _ = string_println(ref_get({a}));\n    ()\n}}\n')
+    out["prefix-operators"] = (
+        f"fn flip({a}: bool) -> bool {{ !{a} }}\nfn minus({b}: int32) -> int32 {{ -{b} }}\n"
+        f"fn main() -> unit {{\n    let {a} = true;\n    let {b} = 5;\n    let {_name('kept', 2 * L)} = !{a};\n    let {_name('held', 2 * L)} = -{b};\n"
+        f"    let _ = string_println(bool_to_string(flip({_name('kept', 2 * L)})) + int32_to_string(minus({_name('held', 2 * L)})));\n    ()\n}}\n")
+    out["operator-chain"] = (
+        f"fn chain({a}: int32, {b}: int32, {c}: int32) -> int32 {{ {a} + {b} * {c} - {a} / {b} + {c} * {a} - {b} }}\n"
+        f"fn all3({a}: bool, {b}: bool, {c}: bool) -> bool {{ {a} && {b} || {c} && !{a} || {b} == {c} }}\n"
+        f'fn text({a}: string) -> string {{ "{_prose(L // 2)}" + {a} + "{_prose(L // 2, 3)}" + {a} + "{_prose(L // 2, 6)}" }}\n'
+        f'fn main() -> unit {{\n    let _ = string_println(int32_to_string(chain(7, 3, 2)) + bool_to_string(all3(true, false, true)) + text("-"));\n    ()\n}}\n')
+    return out
+
+
+def wide_cases(root, tier):
+    """Programs whose emitted Go has statements wider than the width the printer is asked to fill.  Go ends a statement at a
+    newline that follows an operand, so *where* a printer that fills a width breaks a line is part of C02; a layout decision
+    only shows on lines that do not fit.  Dimensions: operator x operand type x what makes the line wide (long names, long
+    binder, long literal on either side) x position of the operation, and the other statement forms (calls, signatures, struct
+    / tuple / enum / array literals, string switch cases, closures, methods, generic instances).  Lengths: just over the width
+    and far over it in the quick tier; the thorough tier sweeps the operand length so that the widest line takes every width
+    around the limit."""
+    lengths = [61, 130] if tier == "quick" else [61, 130, 400]
+    sweep = [] if tier == "quick" else list(range(40, 60))
+    cases = []
+
+    def add(ident, text):
+        d = os.path.join(root, "wide_" + re.sub(r"[^A-Za-z0-9]+", "_", ident))
+        os.makedirs(d, exist_ok=True)
+        open(d + "/main.gom", "w").write(text)
+        cases.append({"id": "wide:" + ident, "ident": "wide:" + ident, "path": d + "/main.gom", "family": "wide"})
+
+    for ty, (_, _, ops) in _WIDE_CLASSES.items():
+        for op in ops:
+            for L in (lengths + sweep if ty in ("int32", "string", "bool") else lengths[:1] if tier == "quick" else lengths):
+                add(f"operator:{ty}:{_OPNAME[op]}:len{L}", _wide_operator_program(ty, op, L))
+    for L in lengths + sweep:
+        for cn, text in _wide_construct_programs(L).items():
+            add(f"construct:{cn}:len{L}", text)
+    return cases
+
+
 def run(tier, rep):
     build_harness()
     ncal, st0 = calibrate(rep)
@@ -51,6 +223,8 @@ def run(tier, rep):
     cases = []
     for c in corpus.single_file_cases() + corpus.package_cases():
         cases.append({"id": "corpus:" + c["name"], "path": c["src"], "family": "corpus"})
+    # statements wider than the width the Go printer is asked to fill (layout decisions show only there)
+    cases += wide_cases(root, tier)
     import tv
     cases += tv.prepare_cases(families.all_families(tier, seed()), root)
     # extern declarations in every combination (functions only, types only used through functions, both, declared but unused,
@@ -74,6 +248,12 @@ def run(tier, rep):
         open(dd + "/main.gom", "w").write(et)
         cases.append({"id": "extern:" + en, "ident": "extern:" + en, "path": dd + "/main.gom", "family": "extern"})
     st = engine.evaluate(cases, static=True, sem=False, name="c02")
+    wide_lines = wide_progs = 0
+    for c in cases:
+        if c["family"] == "wide" and c["compile"]["verdict"] == "ok":
+            n = sum(1 for l in c["compile"]["go"].splitlines() if len(l) > WIDTH)
+            wide_lines += n
+            wide_progs += n > 0
     accepted = rejected = unsupported = notcompiled = 0
     fams = {}
     for c in cases:
@@ -106,6 +286,7 @@ def run(tier, rep):
         "programs": accepted + rejected + unsupported, "disagreements_checked": accepted + rejected,
         "calibration_files": ncal, "accepted_by_gostatic": accepted, "rejected_by_gostatic": rejected,
         "unsupported_constructs": unsupported, "not_compiled": notcompiled,
+        "wide_programs_with_a_line_over_the_printer_width": wide_progs, "emitted_lines_over_the_printer_width": wide_lines,
         "families": {k: {"cases": v[0], "compiled": v[1]} for k, v in fams.items()},
         "states": st["states"] + st0["states"], "transitions": st["transitions"] + st0["transitions"],
     })
